@@ -575,7 +575,7 @@ func streamBytes(parts []namedSeg, tail []byte) []byte {
 // C12: a frame corrupted in payload/CRC is discarded alone.
 func C12(r *ev.Run) {
 	thorough := r.Tier == "thorough"
-	r.Rule = "streams of 3 segments (valid frames / D3-free junk) with the victim frame in each position; victim payload lengths 1,2,4,22,64,255 (thorough adds 1023); corruptions of payload+CRC only: every single-bit flip, every adjacent 2-bit flip, every byte overwritten with 00, FF, D3 and original^0x80, plus every pair of bytes (first/last payload byte, each CRC byte) set to D3; only CRC-breaking corruptions are kept; expected = uncorrupted delivery with the victim replaced by one non-RTCM message of exactly its bytes; for streams without junk merging the time text, timestamp and error text of every other message must also equal those of the uncorrupted delivery (neighbours include header-only MSM frames of GPS, BeiDou and GLONASS, and the victim's own uncorrupted frame before and after it). Non-trivial = every case (each has a corrupted victim); distinct = distinct streams"
+	r.Rule = "streams of 3 segments (valid frames / D3-free junk) with the victim frame in each position; victim payload lengths 1,2,4,22,64,255 (thorough adds 1023); corruptions of payload+CRC only: every single-bit flip, every adjacent 2-bit flip, every byte overwritten with 00, FF, D3 and original^0x80, plus every pair of bytes (first/last payload byte, each CRC byte) set to D3, plus a complete CRC-valid frame of 7, 8 or 12 bytes (and the same with its CRC spoiled) written over every position of payload+CRC where it fits; only CRC-breaking corruptions are kept; expected = uncorrupted delivery with the victim replaced by one non-RTCM message of exactly its bytes; for streams without junk merging the time text, timestamp and error text of every other message must also equal those of the uncorrupted delivery (neighbours include header-only MSM frames of GPS, BeiDou and GLONASS, and the victim's own uncorrupted frame before and after it). Non-trivial = every case (each has a corrupted victim); distinct = distinct streams"
 	frames, junk := c03Menu(thorough)
 	msmGPS := namedSeg{"F1077/22-header", ref.HeaderOnlyMSM(1077, 5000), "frame"}
 	msmBDS := namedSeg{"F1124/22-header", ref.HeaderOnlyMSM(1124, 5000), "frame"}
@@ -757,6 +757,19 @@ func C12(r *ev.Run) {
 				m := append([]byte{}, victim...)
 				m[special[x]], m[special[y]] = 0xD3, 0xD3
 				try(m, fmt.Sprintf("bytes %d,%d := d3", special[x], special[y]))
+			}
+		}
+		// a burst that happens to be a complete, CRC-valid frame of its own (7, 8 and
+		// 12 bytes), written over every position of payload+CRC where it fits, and the
+		// same with its last CRC byte spoiled (a plausible leader, nothing more)
+		for _, emb := range [][]byte{ref.Frame([]byte{0x41}), ref.Frame([]byte{0x3e, 0xd0}), ref.TypedFrame(1005, 6, validTimestampFill)} {
+			for k := lo; k+len(emb) <= hi; k += byteStride {
+				m := append([]byte{}, victim...)
+				copy(m[k:], emb)
+				try(m, fmt.Sprintf("bytes %d..%d := a valid %d-byte frame", k, k+len(emb)-1, len(emb)))
+				m2 := append([]byte{}, m...)
+				m2[k+len(emb)-1] ^= 0x01
+				try(m2, fmt.Sprintf("bytes %d..%d := a %d-byte frame with a wrong CRC", k, k+len(emb)-1, len(emb)))
 			}
 		}
 		r.Count(n, n, n, n)
